@@ -329,6 +329,7 @@ pm *pm_kron(const pm *M, const pm *J) {
 }
 
 /* =============================== windows =============================== */
+int vw_nest = 0;
 vwin vw_make(const pm *content, int make_window, int rowoff, int wordoff, int trailw, int trailr, int fill) {
   vwin w; memset(&w, 0, sizeof w);
   w.r = content->r; w.c = content->c; w.rowoff = rowoff; w.wordoff = wordoff; w.trailw = trailw; w.trailr = trailr; w.fill = fill;
@@ -342,7 +343,10 @@ vwin vw_make(const pm *content, int make_window, int rowoff, int wordoff, int tr
   for (int i = 0; i < content->r; i++) for (int j = 0; j < content->c; j++) pm_set(P, rowoff + i, 64 * wordoff + j, pm_get(content, i, j));
   w.parent = mzd_from_pm(P);
   pm_free(P);
-  w.view = mzd_init_window(w.parent, rowoff, 64 * wordoff, rowoff + content->r, 64 * wordoff + content->c);
+  if (vw_nest) { /* view of a view: the intermediate view has the same column range (the inner one reaches ITS parent's last column) and all rows below */
+    mzd_t *mid = mzd_init_window(w.parent, rowoff, 64 * wordoff, pr, 64 * wordoff + content->c);
+    w.view = mzd_init_window(mid, 0, 0, content->r, content->c); mzd_free(mid);
+  } else w.view = mzd_init_window(w.parent, rowoff, 64 * wordoff, rowoff + content->r, 64 * wordoff + content->c);
   return w;
 }
 static const mzd_t *vw_alloc(const vwin *w) { return w->parent ? w->parent : w->view; }
